@@ -379,13 +379,6 @@ Qed.
 Lemma mapM_single : forall {A B} (f : A -> res B) x, mapM f [x] = do y <- f x ;; Ok [y].
 Proof. intros A B f x. cbn [mapM]. destruct (f x); reflexivity. Qed.
 
-Definition opt_ok (o : option str) : bool := match o with Some v => is_ident v | None => true end.
-
-(* the names getfullargspec reports are identifiers; the annotation keys are parameter names or "return" *)
-Definition spec_names_ok (sp : argspec) : bool :=
-  forallb is_ident (as_args sp) && forallb is_ident (as_kwonly sp) && opt_ok (as_varargs sp) && opt_ok (as_varkw sp)
-  && forallb is_ident (map fst (as_anns sp)).
-
 Lemma forallb_ident_no_star : forall l, forallb is_ident l = true -> forallb no_star l = true.
 Proof.
   induction l as [|a l IH]; [reflexivity|]. cbn [forallb]. intros H. apply andb_true_iff in H. destruct H as [H1 H2].
@@ -455,10 +448,6 @@ Proof. split; reflexivity. Qed.
 (* ---------------------------------------------------------------------------------------- *)
 (* the whole stub                                                                           *)
 (* ---------------------------------------------------------------------------------------- *)
-Definition spec_ok (sp : argspec) : bool := spec_names_ok sp && negb (known_F45 sp).
-Definition methods_ok (fs : list (str * fkind)) : bool :=
-  forallb (fun kf => match snd kf with KMethod sp => spec_ok sp | _ => true end) fs.
-
 Lemma collect_methods_ok : forall fs c, collect fs = Ok c -> methods_ok fs = true ->
   forallb (fun km => spec_ok (snd km)) (c_methods c) = true.
 Proof.
@@ -614,14 +603,6 @@ Qed.
 (* ---------------------------------------------------------------------------------------- *)
 (* input-level preconditions imply the AST is inside the fragment grammar                   *)
 (* ---------------------------------------------------------------------------------------- *)
-Definition aobj_ok (a : aobj) : bool := match typestr a with Ok t => typestr_ok t | _ => true end.
-Definition meth_ok (sp : argspec) : bool := spec_ok sp && forallb aobj_ok (map snd (as_anns sp)).
-Definition field_ok (kf : str * fkind) : bool :=
-  is_ident (fst kf) && match snd kf with KVirtual a => aobj_ok a | KField a => aobj_ok a | KMethod sp => meth_ok sp end.
-Definition fields_ok (fs : list (str * fkind)) : bool := forallb field_ok fs.
-Definition class_ok (tgt : target) (cn : option str) : bool :=
-  match class_name_of tgt cn with Ok n => is_ident n | _ => true end.
-
 Lemma fields_methods_ok : forall fs, fields_ok fs = true -> methods_ok fs = true.
 Proof.
   induction fs as [|[k f] r IH]; [reflexivity|]. unfold fields_ok, methods_ok in *. cbn [forallb snd]. intros H.
